@@ -100,7 +100,10 @@ def build_problem(case):
                                    tdep=(rng.random() < 0.3),
                                    gap=wl.choose(rng, ['flow', 'flow', 'none',
                                                        'no_flow']),
-                                   empty_frac=0.2, regions_frac=0.5)
+                                   empty_frac=0.2, regions_frac=0.5,
+                                   conv_approx=0.3,
+                                   vel_range=wl.choose(rng, [(0.05, 6.0),
+                                                             (0.02, 2.0)]))
     return P, feats
 
 
